@@ -176,7 +176,7 @@ Section Pipelines.
   Qed.
 
   Section Multi.
-    Variables (hdr : list (Z * Z)) (recs : list rec).
+    Variables (hdr : list (Z * Z)) (recs : list rec) (in_rgs : list Z).
     Hypothesis hdr_nodup : NoDup (map fst hdr).
     Hypothesis recs_placed : forall r, In r recs -> placed_in (map fst hdr) r = true.
 
@@ -223,7 +223,7 @@ Section Pipelines.
       pre_stream qflag recs ->
       job_outputs sort it qflag true true hdr recs = Ok outs ->
       Permutation done outs ->
-      Permutation (map key (map fst (snd (multi_merge merge done)))) (nkeys (expected qflag recs)).
+      Permutation (map key (map fst (snd (multi_merge merge in_rgs done)))) (nkeys (expected qflag recs)).
     Proof.
       intros Hpre H Hdone. unfold job_outputs in H. apply mapM_Ok in H.
       unfold multi_merge.
@@ -238,7 +238,7 @@ Section Pipelines.
     Lemma multi_rg yi yo outs done r g :
       job_outputs sort it qflag yi yo hdr recs = Ok outs ->
       Permutation done outs ->
-      In (r, g) (snd (multi_merge merge done)) -> In g (fst (multi_merge merge done)).
+      In (r, g) (snd (multi_merge merge in_rgs done)) -> In g (fst (multi_merge merge in_rgs done)).
     Proof.
       intros H Hdone Hin. unfold job_outputs in H. apply mapM_Ok in H. unfold multi_merge in *.
       apply (Permutation_in _ (merge_perm _)) in Hin. cbn [flat_map snd app] in Hin.
@@ -276,7 +276,7 @@ Section Pipelines.
       (forall c, fragments qflag (fetch c recs) = Ok (F c)) ->
       job_outputs sort it qflag false true hdr recs = Ok outs ->
       Permutation done outs ->
-      Permutation (map fst (snd (multi_merge merge done)))
+      Permutation (map fst (snd (multi_merge merge in_rgs done)))
                   (flat_map (fun c => flat_map frag_recs (filter valid (F c)))
                             (concat (contig_jobs (contigs_with_reads hdr recs)))).
     Proof.
@@ -386,8 +386,8 @@ Proof.
   cbn [bind]. eauto.
 Qed.
 
-Lemma multi_total sort merge it qflag yi yo hdr recs :
-  (forall r, In r recs -> wf_flags r = true) -> exists b, multi sort merge it qflag yi yo hdr recs = Ok b.
+Lemma multi_total sort merge it qflag yi yo in_rgs hdr recs :
+  (forall r, In r recs -> wf_flags r = true) -> exists b, multi sort merge it qflag yi yo in_rgs hdr recs = Ok b.
 Proof.
   intros Hwf. unfold multi, job_outputs.
   destruct (mapM_total (job sort it qflag yi yo recs) (contig_jobs (contigs_with_reads hdr recs))) as (outs & ->).
@@ -510,7 +510,7 @@ Lemma demo_runs :
   (* default options: 8 primary records out of 9, single process and contig-per-process alike *)
   (exists b, single csort demo_it false true true demo_hdr demo_recs = Ok b /\
              map (fun o : orec => r_id (fst o)) (snd b) = [1; 2; 3; 4; 5; 6; 8; 9]) /\
-  (exists b, multi csort cmerge demo_it false true true demo_hdr demo_recs = Ok b /\
+  (exists b, multi csort cmerge demo_it false true true [] demo_hdr demo_recs = Ok b /\
              map (fun o : orec => r_id (fst o)) (snd b) = [1; 2; 3; 4; 5; 6; 8; 9]) /\
   (* --no_rejects: the two invalid fragments (half-mapped pair, unmapped pair) are gone *)
   (exists b, single csort demo_it false false true demo_hdr demo_recs = Ok b /\
